@@ -207,6 +207,21 @@ func (w *World) startProxy(yamlText string, keep *[]*Proxy) {
 	})
 	w.K.RunIdle()
 	if !done && w.StartErr == "" && !w.dead() {
+		// nothing can run any more and start-up has not finished: goroutines of the program waiting for locks (or in a
+		// channel send) that nobody will release is a deadlock of the program - the production process would hang at
+		// start - not trouble of the harness
+		var stuck []string
+		for _, g := range w.K.Census() {
+			if strings.HasPrefix(g.State, "parked:mutex-lock") || strings.HasPrefix(g.State, "parked:rw-") || g.State == "real:chan-send" {
+				stuck = append(stuck, g.Name+" "+g.State)
+			}
+		}
+		if len(stuck) > 0 {
+			w.Viol = append(w.Viol, Violation{Prop: w.Prop, Rule: "deadlock-at-start-up", Sig: "",
+				Detail: fmt.Sprintf("the proxy did not finish starting: no goroutine can run and these wait for a lock or a queue that nobody will release: %v\n%s", stuck, yamlText)})
+			w.StartErr = "deadlock"
+			return
+		}
 		w.StartErr = "start-up did not complete"
 	}
 	if w.StartErr != "" {
